@@ -10,6 +10,7 @@ import (
 	"strconv"
 	"strings"
 
+	"github.com/mk6i/mkdb/storage"
 	"verifharness/hx"
 )
 
@@ -62,6 +63,14 @@ func main() {
 		os.Exit(2)
 	}
 	name := os.Args[1]
+	if name == "initstorage" {
+		// child process of the recovery step: run the real start-up recovery in the current directory
+		hx.Quiet()
+		if err := storage.InitStorage(); err != nil {
+			os.Exit(3)
+		}
+		os.Exit(0)
+	}
 	fs := flag.NewFlagSet(name, flag.ExitOnError)
 	seed := fs.Uint64("seed", 1, "PRNG seed")
 	tier := fs.String("tier", "quick", "quick|thorough")
